@@ -374,6 +374,19 @@ def generated() -> dict[str, bytes]:
     ents = [{"name": n, "data": d} for n, d in members] + [{"name": "empty dir", "data": None}, {"name": "d/empty.txt", "data": b""}]
     g["gen/a.7z"] = write_7z(ents, layout="solid", method="lzma2")
     g["gen/perfile.7z"] = write_7z(ents, layout="per_file", method="copy", encoded_header=True)
+    # a 7z whose packed ("encoded") end header is stored with the Copy method at the very place where the end header itself lives:
+    # unpacking it yields the same packed header again (readers that unpack headers in a loop must notice)
+    import struct as _st
+    import zlib as _zl
+
+    def _endh(n):
+        return bytes([0x17, 0x06, 0x00, 0x01, 0x09, n, 0x00, 0x07, 0x0B, 0x01, 0x00, 0x01, 0x01, 0x00, 0x0C, n, 0x00, 0x00])
+    _h = _endh(len(_endh(0)))
+    _tail = _st.pack("<QQI", 0, len(_h), _zl.crc32(_h) & 0xFFFFFFFF)
+    g["gen/selfref-header.7z"] = b"7z\xbc\xaf\x27\x1c" + bytes([0, 4]) + _st.pack("<I", _zl.crc32(_tail) & 0xFFFFFFFF) + _tail + _h
+    # an EPUB whose second chapter stops inside a comment (a parser that is fed this keeps the tail buffered)
+    _zin = zipfile.ZipFile(io.BytesIO(g["gen/a.epub"]))
+    g["gen/cutchapter.epub"] = _zip([(zi.filename, (_zin.read(zi)[:-40] + b"<p>before</p><!-- dra") if zi.filename.endswith("c2.xhtml") else _zin.read(zi)) for zi in _zin.infolist()])
     # an archive that is refused because of a member name, the name holding a line break (error messages quote it)
     g["gen/unsafe-name-newline.7z"] = write_7z([{"name": "../esc\nape.txt", "data": b"x\n"}, {"name": "ok.txt", "data": b"fine\n"}], method="copy")
     return g
